@@ -267,7 +267,9 @@ Section JsonProof.
         run (mkS (f :: r) None SNone) rel (jevents keyed j ++ rest) =
         prepend L (run (mkS (add_kids f (jgrow (chain_of (f :: r)) keyed j) :: r) None SNone)
                        (skipn (length L) rel) rest) /\
-        Inv pm (add_kids f (jgrow (chain_of (f :: r)) keyed j) :: r).
+        Inv pm (add_kids f (jgrow (chain_of (f :: r)) keyed j) :: r) /\
+        (pm (chain_of (f :: r) ++ [jname keyed j]) = true ->
+         Forall (fun d => snd d = retained (mkS (f :: r) None SNone) + tree_size (jkid keyed j)) L).
 
   Lemma jrun_kids : forall ms, Forall JRunP ms -> forallb jwf ms = true ->
     forall keyed g s rel rest, mode keyed g -> Inv pm (g :: s) ->
@@ -281,7 +283,7 @@ Section JsonProof.
     - exists []. simpl. rewrite add_kids_nil, prepend_nil. auto.
     - cbn [forallb] in Hwf. apply andb_prop in Hwf as [Hw1 Hw2].
       cbn [flat_map]. rewrite <- app_assoc.
-      destruct (Hx keyed g s rel (flat_map (jevents keyed) l ++ rest) Hw1 Hm HI) as (L1 & E1 & R1 & I1).
+      destruct (Hx keyed g s rel (flat_map (jevents keyed) l ++ rest) Hw1 Hm HI) as (L1 & E1 & R1 & I1 & _).
       destruct (IH Hw2 keyed _ s (skipn (length L1) rel) rest (mode_add_kids _ _ _ Hm) I1) as (L2 & E2 & R2 & I2).
       rewrite chain_of_add_kids in E2, R2, I2.
       exists (L1 ++ L2). split; [|split].
@@ -294,14 +296,17 @@ Section JsonProof.
     Inv pm (f :: r) -> elemf g -> pm (chain_of (f :: r) ++ [fname g]) = true ->
     step st0 tk = wrap (mkS (g :: f :: r) None (SOpen (length (g :: f :: r)))) ->
     exists L, map fst L = (if pred (close_frame g) then [close_frame g] else []) /\
-      run st0 rel (tk :: rest) = prepend L (run (mkS (f :: r) None SNone) (skipn (length L) rel) rest).
+      run st0 rel (tk :: rest) = prepend L (run (mkS (f :: r) None SNone) (skipn (length L) rel) rest) /\
+      Forall (fun d => snd d = retained (mkS (f :: r) None SNone) + tree_size (close_frame g)) L.
   Proof.
     intros st0 tk g f r rel rest HI Hg Hpm Hstep.
     rewrite (wrap_candidate pm pred has_filter Hnf g f r HI Hg Hpm) in Hstep.
     destruct (pred (close_frame g)).
-    - eexists [(_, _)]. split; [reflexivity|].
-      rewrite (run_deliver _ _ _ _ _ _ _ _ Hstep). cbn [length]. rewrite skipn_1. reflexivity.
-    - exists []. split; [reflexivity|]. rewrite (run_cont _ _ _ _ _ Hstep), prepend_nil. reflexivity.
+    - eexists [(_, _)]. split; [reflexivity|]. split.
+      + rewrite (run_deliver _ _ _ _ _ _ _ _ Hstep). cbn [length]. rewrite skipn_1. reflexivity.
+      + constructor; [|constructor]. cbn [snd]. apply retained_add_kid.
+    - exists []. split; [reflexivity|]. split; [|constructor].
+      rewrite (run_cont _ _ _ _ _ Hstep), prepend_nil. reflexivity.
   Qed.
 
   Lemma finish_plain : forall st0 tk g f r rel rest,
@@ -327,7 +332,8 @@ Section JsonProof.
     exists L, map fst L = spec pm pred c' (close_frame g) /\
       run st0 rel (tk :: rest) =
       prepend L (run (mkS (add_kids f (grown c' (close_frame g)) :: r) None SNone) (skipn (length L) rel) rest) /\
-      Inv pm (add_kids f (grown c' (close_frame g)) :: r).
+      Inv pm (add_kids f (grown c' (close_frame g)) :: r) /\
+      (pm c' = true -> Forall (fun d => snd d = retained (mkS (f :: r) None SNone) + tree_size (close_frame g)) L).
   Proof.
     intros st0 tk g f r rel rest HI Hg Hk c' Hstep. unfold after_check, grown in *.
     assert (Hspec : spec pm pred c' (close_frame g) =
@@ -335,12 +341,12 @@ Section JsonProof.
     { unfold close_frame. rewrite spec_unfold. destruct (pm c'); [reflexivity|].
       apply spec_kids_nonelem. exact Hk. }
     rewrite Hspec. destruct (pm c') eqn:Hpm.
-    - destruct (finish_cand st0 tk g f r rel rest HI Hg Hpm Hstep) as (L & EL & RL).
+    - destruct (finish_cand st0 tk g f r rel rest HI Hg Hpm Hstep) as (L & EL & RL & SL).
       exists L. rewrite add_kids_nil. auto.
     - exists []. split; [reflexivity|].
       assert (Hpr : prune pm c' (close_frame g) = close_frame g).
       { unfold close_frame. rewrite prune_unfold, prune_kids_nonelem by exact Hk. reflexivity. }
-      rewrite Hpr, prepend_nil. split.
+      rewrite Hpr, prepend_nil. split; [|split; [|intro Habs; discriminate Habs]].
       + apply finish_plain. exact Hstep.
       + change (add_kids f [close_frame g]) with (add_kid f (close_frame g)).
         apply inv_add_kid; [exact HI|].
@@ -359,7 +365,8 @@ Section JsonProof.
     exists L, map fst L = spec pm pred c' t /\
       run (after_check c' g f r) rel (flat_map (jevents kd) ms ++ ctok :: rest) =
       prepend L (run (mkS (add_kids f (grown c' t) :: r) None SNone) (skipn (length L) rel) rest) /\
-      Inv pm (add_kids f (grown c' t) :: r).
+      Inv pm (add_kids f (grown c' t) :: r) /\
+      (pm c' = true -> Forall (fun d => snd d = retained (mkS (f :: r) None SNone) + tree_size (t)) L).
   Proof.
     intros kd ms g f r rel rest ctok HF Hwf Hm Hg Hk HI Hc c' t. unfold after_check, grown.
     assert (Hspec : spec pm pred c' t =
@@ -371,10 +378,10 @@ Section JsonProof.
       set (g1 := add_kids g (map (jkid kd) ms)).
       assert (Hg1 : elemf g1) by exact Hg.
       change (length (g :: f :: r)) with (length (g1 :: f :: r)).
-      destruct (finish_cand _ ctok g1 f r rel rest HI Hg1 Hpm (Hc g1 _)) as (L & EL & RL).
+      destruct (finish_cand _ ctok g1 f r rel rest HI Hg1 Hpm (Hc g1 _)) as (L & EL & RL & SL).
       assert (Et : close_frame g1 = t).
       { unfold close_frame, g1, add_kids, t. cbn [f_ty f_data f_fs f_kids]. rewrite Hg, Hk. reflexivity. }
-      rewrite Et in EL. exists L. rewrite add_kids_nil. auto.
+      rewrite Et in EL, SL. exists L. rewrite add_kids_nil. auto.
     - (* not on the path *)
       assert (Hgk : Forall (fun k => is_element k = false) (f_kids g)) by (rewrite Hk; constructor).
       assert (HI1 : Inv pm (g :: f :: r)) by (apply inv_push; assumption).
@@ -387,7 +394,7 @@ Section JsonProof.
       assert (Et : close_frame g1 = prune pm c' t).
       { unfold close_frame, g1, add_kids, t. cbn [f_ty f_data f_fs f_kids].
         rewrite prune_unfold, prune_kids_jkid, Hg, Hk. reflexivity. }
-      exists L. split; [exact EL|]. split.
+      exists L. split; [exact EL|]. split; [|split; [|intro Habs; discriminate Habs]].
       + rewrite RL. f_equal. rewrite (finish_plain _ ctok g1 f r _ rest (Hc g1 _)), Et. reflexivity.
       + change (add_kids f [prune pm c' t]) with (add_kid f (prune pm c' t)).
         apply inv_add_kid; [exact HI|].
